@@ -311,26 +311,19 @@ static void run_selection(unsigned passes, bool adversarial) {
   }
 }
 
-// passes fixed by the job (MA_PFIX)
-#ifdef MA_PFIX
+// passes is a constant of the job (MA_PFIX in {0,1,2,3}); with a symbolic budget the query was not decided in 20 minutes even for one definition
+#ifndef MA_PFIX
+#define MA_PFIX MA_PMAX
+#endif
 extern "C" void h_select() {
   run_selection(MA_PFIX, false);
   ASSERT(0, "WITNESS: end of h_select reachable");
 }
-#endif
-
-// passes symbolic in [0, MA_PMAX]
-extern "C" void h_loop() {
-  unsigned passes = (unsigned)sym_range(0, MA_PMAX);
-  run_selection(passes, false);
-  ASSERT(CEX_rewrites < MA_PMAX, "C11(EXISTS): a run in which every pass of the largest budget rewrites");
-  ASSERT(0, "WITNESS: end of h_loop reachable");
-}
 
 // adversarial detector: always reports a match (whenever the input still has a token before T_EOF)
 extern "C" void h_adversarial() {
-  unsigned passes = (unsigned)sym_range(1, MA_PMAX);
-  run_selection(passes, true);
+  run_selection(MA_PFIX, true);
+  ASSERT(CEX_rewrites < MA_PFIX, "C11(EXISTS): a run in which every pass of the budget rewrites and MACRO_APPLY_REACHED_MAX_PASSES is reported");
   ASSERT(0, "WITNESS: end of h_adversarial reachable");
 }
 
@@ -361,7 +354,7 @@ extern "C" void h_inst() {
     Token t; t.file = one_char(sym_lower()); t.line = b == 0 ? line0 : sym_range(0, 999);
     int sel = sym_range(0, 4); bk[b] = 0;
     if (sel == 3) ASSUME(nt > 0);
-    if (sel == 0) { t.t = Token::ID; t.text = sym_text12(); }
+    if (sel == 0) { t.t = Token::ID; t.text = one_char(sym_lower()); }
     else if (sel == 1) { t.t = Token::INT; t.text = one_char((char)('0' + sym_range(0, 9))); }
     else if (sel == 2) { t.t = Token::PROGSEP; t.text = std::string(";"); }
     else if (sel == 3) { bk[b] = sym_range(0, MB_NT - 1); ASSUME(bk[b] < nt); t.t = Token::INSERTION; t.text = two_char('$', (char)('0' + bk[b])); }
@@ -372,7 +365,7 @@ extern "C" void h_inst() {
   MacroDetector::Response resp; resp.location = sym_range(0, 9); resp.length = sym_range(1, 9);
   std::vector<Token> slot[MA_RS];
   for (int p = 0; p < MA_RS; p++) {
-    for (int q = 0; q < MB_NM; q++) { Token t; t.t = (Token::Type)sym_range(1, (int)Token::UNKNOWN); t.text = sym_text12(); t.file = one_char(sym_lower()); t.line = sym_range(0, 999); TOKV_SET(slot[p], q, t); }
+    for (int q = 0; q < MB_NM; q++) { Token t; t.t = (Token::Type)sym_range(1, (int)Token::UNKNOWN); t.text = one_char(sym_lower()); t.file = std::string("m"); t.line = sym_range(0, 999); TOKV_SET(slot[p], q, t); }
     slot[p].n = sym_range(0, MB_NM);
     resp.matched.push_back(slot[p]);
   }
